@@ -979,6 +979,12 @@ def check_case(case, ctx):
                     # a property whose type is skipped is not introspectable and loses its accessors (C05 territory)
                     ctx.label('undecided:accessor-of-property-with-skipped-type')
                     continue
+                if a != 'default-value' and v not in W['classes'][e['owner']]['methods']:
+                    # names no method of the type: refused with a warning, nothing is written (the typelib
+                    # compiler aborts on a dangling accessor)
+                    checks.append((a, _attr_is(PROP_ATTRS[a], None)))
+                    ctx.label('accessor-annotation-names-nothing')
+                    continue
                 checks.append((a, _attr_is(PROP_ATTRS[a], v)))
             elif a == 'transfer':
                 checks.append((a, _attr_is('transfer-ownership', 'none' if v == 'floating' else v)))
@@ -1010,6 +1016,10 @@ def check_case(case, ctx):
                         h = oe['name']
                 if h is not None and h != v:
                     ctx.label('undecided:accessor-annotation-contradicts-name')
+                    continue
+                if v not in W['classes'][e['owner']]['props']:
+                    checks.append((a, _attr_is('glib:' + a, None)))       # names no property of the type: refused
+                    ctx.label('accessor-annotation-names-nothing')
                     continue
                 checks.append((a, _attr_is('glib:' + a, v)))
             elif a == 'virtual':
